@@ -119,6 +119,9 @@ class PbnParser(Parser):
             # game except the first game of the PBN file.
             match = re.fullmatch(self.REPLACE_PATTERN, line)
             if match and not self._in_comment:
+                if len(self.tag_pair_buffer) == 0:
+                    # consecutive (semi-)empty lines: there is no game to yield
+                    continue
                 yield self.parse_board()
 
                 # initialization
